@@ -188,7 +188,11 @@ impl Probe for MergeProbe {
                 }
                 let mut versions: BTreeMap<String, Vec<String>> = BTreeMap::new();
                 for l in &leafs {
-                    if let Ok(o) = m.verif_array_order(duuid, l) {
+                    // ground truth (the array submitted when the revision was created) where the harness
+                    // has it, else the replica's own reconstruction
+                    if let Some(t) = w.truth.get(&(duuid.to_string(), l.clone())) {
+                        versions.insert(l.clone(), t.clone());
+                    } else if let Ok(o) = m.verif_array_order(duuid, l) {
                         versions.insert(l.clone(), o.iter().filter_map(|x| x.as_str().map(|s| s.to_string())).collect());
                     }
                 }
@@ -261,6 +265,9 @@ pub fn scenarios(thorough: bool) -> Vec<Scenario> {
         &[Op::Resolve(1, 0, 0), Op::Resolve(1, 0, 1)]));
     v.push(pair_conflict_scenario("pair-conflict-move", 6, 5, if thorough { &[1, 3, 11] } else { &[1, 3] }, if thorough { 5 } else { 4 }, &[]));
     v.push(trio_scenario("trio", if thorough { 8 } else { 6 }));
+    v.push(two_patch_scenario("pair-two-patches", if thorough { 4 } else { 3 }, &[]));
+    // cold readers: a replica that receives several versions at once / is reopened
+    v.push(pair_conflict_scenario("pair-conflict-cold", 5, 11, if thorough { &[1, 2, 3] } else { &[2, 3] }, if thorough { 5 } else { 4 }, &[Op::Reopen(0), Op::Reopen(1)]));
     v
 }
 
